@@ -518,6 +518,7 @@ class CInterp:
     relational_merge = False
     merge_hook = None
     decl_hook = None
+    assign_hook = None  # assign_hook(interp, env, variable name, value) -> value | None, for `name = expr;` on a named variable
 
     def name_value(self, v, stem):
         """cut: replace a value by fresh constants defined equal to it (keeps later terms small)"""
@@ -701,6 +702,8 @@ class CInterp:
         if vid not in env:
             if rd.get("kind") == "EnumConstantDecl":
                 return ("enum", rd.get("name"))
+            if rd.get("name") in ("stderr", "stdout"):
+                return ("stream", rd.get("name"))
             raise Unsupported(f"reference to unknown variable {rd.get('name')}")
 
         def setter(v, vid=vid):
@@ -873,6 +876,11 @@ class CInterp:
             if isinstance(v, FV):
                 v = FV(v.v)
             v = self.coerce(v, n.get("type", {}).get("qualType", ""))
+            if self.assign_hook:
+                tgt = n["inner"][0]
+                if tgt.get("kind") == "DeclRefExpr":
+                    v2 = self.assign_hook(self, env, tgt.get("referencedDecl", {}).get("name"), v)
+                    v = v if v2 is None else v2
             lhs.set(v)
             return v
         if op == "&&":
